@@ -6,23 +6,60 @@
  *   buffered = smtptobuf[0..smtpto.p) at that moment, nwrites = number of write() calls on the socket.
  * <plan> (one token) = <rplan>[/<wplan>[/<ibuf>,<obuf>]]: how read() of the message file and write() to the socket behave. Each
  *   plan is a comma-separated list of caps used cyclically, one per call (0 = no cap, e = the call fails with EIO).
- *   <ibuf>,<obuf> (default 1024,1024 = the program's own) = how much of inbuf / smtptobuf the two substdio are given
- *   (SUBSTDIO_FDBUF(op,fd,buf,len) with a smaller len: refills and flushes then happen every few bytes).
- *   A plain integer is the old <chunk> (read cap, unlimited writes).
- * ssin reads through a scripted read(); smtpto keeps the real `safewrite` (GEN_SAFE_TIMEOUTWRITE: failure -> dropped()),
- * timeoutwrite.o is replaced by the scripted socket. */
+ *   <ibuf>,<obuf>: the two substdio are given only that many bytes of their buffers (ssin.n / smtpto.n lowered after the
+ *   program's own initialisation: refills and flushes then happen every few bytes).  Without them NOTHING of the program's
+ *   own `ssin` / `smtpto` is touched.  A plain integer is the old <chunk> (read cap, unlimited writes).
+ *
+ * How the program is run (round 2, seed C06-r2m2): qmail-remote.c is NOT #included and the harness does NOT initialise
+ * `ssin` or `smtpto`.  checks/c06.py builds the program as an object of its own (nqlib prog_object: qmail-remote.c compiled
+ * by the scratch tree's ./compile with main renamed, partially linked with everything the Makefile links qmail-remote with
+ * except timeoutwrite.o, its writable data moved to the sections pd_qr / pdl_qr / pdr_qr / pb_qr).  Before EVERY case the
+ * harness restores those sections to their load-time image, so blast() starts exactly as in a freshly exec'ed qmail-remote:
+ * `ssin` = the program's static initialiser (its own read operation, descriptor, buffer object and size), likewise `smtpto`,
+ * and every static the program (or a changed program) keeps between calls is back to its initial value - each case is a
+ * run of its own, so a failing case also fails when it is replayed alone.
+ * The environment is interposed at link level (-Wl,--wrap): read() - descriptor 0 is the message file, served according to
+ * <rplan>; any other descriptor fails with EBADF -, write() on descriptor 1 (the report to qmail-rspawn, captured), _exit()
+ * (back to the case loop); timeoutwrite.o is replaced by the scripted socket (so the program's real `safewrite`
+ * = GEN_SAFE_TIMEOUTWRITE runs: failure -> dropped()), which accepts only the descriptor in `smtpfd`. */
+#define _GNU_SOURCE
 #include "hcommon.h"
 #include <errno.h>
-#define _exit(x) h_exit(x)
-#define main qmail_remote_main
-#include "qmail-remote.c"
-#undef main
-#undef _exit
+#include "substdio.h"
+
+extern substdio ssin, smtpto;      /* the program's own, as initialised by qmail-remote.c */
+extern int smtpfd;
+extern void blast(void);
+#define SMTPFD 9
+
+/* the program's writable data (sections made by prog_object): snapshot at start, restore before every case */
+extern char __start_pd_qr[] __attribute__((weak)), __stop_pd_qr[] __attribute__((weak));
+extern char __start_pdl_qr[] __attribute__((weak)), __stop_pdl_qr[] __attribute__((weak));
+extern char __start_pdr_qr[] __attribute__((weak)), __stop_pdr_qr[] __attribute__((weak));
+extern char __start_pb_qr[] __attribute__((weak)), __stop_pb_qr[] __attribute__((weak));
+static struct { char *a, *b, *snap; } greg[4]; static int ngreg;
+__attribute__((no_sanitize("address", "undefined"))) static void rawcopy(char *d, const char *s, size_t n) {
+  size_t i = 0;
+  if ((((uintptr_t)d | (uintptr_t)s) & 7) == 0) for (; i + 8 <= n; i += 8) *(volatile uint64_t *)(d + i) = *(const uint64_t *)(s + i);
+  for (; i < n; i++) ((volatile char *)d)[i] = s[i];
+}
+static void greg_add(char *a, char *b) {
+  if (!a || !b || b <= a) return;
+  size_t n = b - a;
+  greg[ngreg].a = a; greg[ngreg].b = b; greg[ngreg].snap = malloc(n); rawcopy(greg[ngreg].snap, a, n); ngreg++;
+}
+static void prog_snapshot(void) {
+  greg_add(__start_pd_qr, __stop_pd_qr); greg_add(__start_pdl_qr, __stop_pdl_qr);
+  greg_add(__start_pdr_qr, __stop_pdr_qr); greg_add(__start_pb_qr, __stop_pb_qr);
+  if (ngreg < 2) { fprintf(stderr, "c06_blast: program data sections not found\n"); exit(3); }
+}
+static void prog_restore(void) { for (int i = 0; i < ngreg; i++) rawcopy(greg[i].a, greg[i].snap, greg[i].b - greg[i].a); }
 
 static const unsigned char *in_p; static size_t in_n, in_pos;
 static hbuf outb, repb;
 #define MAXPLAN 64
 static int rplan[MAXPLAN], rplan_n, wplan[MAXPLAN], wplan_n, ibuf_n, obuf_n; static long rplan_k, wplan_k, nwrites;
+static int in_case;
 
 static const char *parse_caps(const char *t, int *plan, int *n) {
   *n = 0;
@@ -36,20 +73,25 @@ static const char *parse_caps(const char *t, int *plan, int *n) {
   return *n > 0 ? t : 0;
 }
 static int parse_plan(const char *t) {
-  ibuf_n = sizeof inbuf; obuf_n = sizeof smtptobuf;
+  ibuf_n = obuf_n = 0;                      /* 0 = as the program initialised it */
   wplan[0] = 0; wplan_n = 1;
   t = parse_caps(t, rplan, &rplan_n);
   if (!t) return 0;
   if (*t == '/') { t = parse_caps(t + 1, wplan, &wplan_n); if (!t) return 0; }
   if (*t == '/') {
     if (sscanf(t + 1, "%d,%d", &ibuf_n, &obuf_n) != 2) return 0;
-    if (ibuf_n < 1 || ibuf_n > (int)sizeof inbuf || obuf_n < 1 || obuf_n > (int)sizeof smtptobuf) return 0;
+    if (ibuf_n < 1 || ibuf_n > 1024 || obuf_n < 1 || obuf_n > 1024) return 0;
     return 1;
   }
   return !*t;
 }
 
-static ssize_t rd(int fd, char *buf, size_t len) {
+/* link-level interposition (-Wl,--wrap=read,--wrap=write,--wrap=_exit): whatever read operation the program installed
+ * in `ssin` ends up here when it reads descriptor 0 */
+ssize_t __real_read(int fd, void *buf, size_t len);
+ssize_t __wrap_read(int fd, void *buf, size_t len) {
+  if (!in_case) return __real_read(fd, buf, len);
+  if (fd != 0) { errno = EBADF; return -1; }                 /* the message is descriptor 0 and nothing else */
   int c = rplan[rplan_k++ % rplan_n];
   if (c < 0) { errno = EIO; return -1; }
   size_t k = in_n - in_pos;
@@ -58,8 +100,20 @@ static ssize_t rd(int fd, char *buf, size_t len) {
   memcpy(buf, in_p + in_pos, k); in_pos += k;
   return k;
 }
+ssize_t __real_write(int fd, const void *buf, size_t len);
+ssize_t __wrap_write(int fd, const void *buf, size_t len) {
+  if (!in_case || fd != 1) return __real_write(fd, buf, len);
+  hbuf_add(&repb, buf, len);                                  /* the report for qmail-rspawn */
+  return len;
+}
+void __real__exit(int c) __attribute__((noreturn));
+void __wrap__exit(int c) {
+  if (in_case) { h_exitcode = c; longjmp(h_jb, 1); }
+  __real__exit(c);
+}
 /* replaces timeoutwrite.o: the socket, taking what the write plan says */
 ssize_t timeoutwrite(int t, int fd, const void *buf, size_t len) {
+  if (fd != SMTPFD) { errno = EBADF; return -1; }
   int c = wplan[wplan_k++ % wplan_n];
   nwrites++;
   if (c < 0) { errno = EIO; return -1; }
@@ -68,19 +122,18 @@ ssize_t timeoutwrite(int t, int fd, const void *buf, size_t len) {
   hbuf_add(&outb, buf, k);
   return k;
 }
-static ssize_t wrrep(int fd, const char *buf, size_t len) { hbuf_add(&repb, buf, len); return len; }
 
 static void onep(const unsigned char *m, size_t n, const char *tok) {
   if (!parse_plan(tok)) return;
-  substdio tin = SUBSTDIO_FDBUF(rd, -1, inbuf, ibuf_n);
-  substdio tto = SUBSTDIO_FDBUF(safewrite, -1, smtptobuf, obuf_n);
-  ssin = tin; smtpto = tto;
-  subfdoutsmall->op = wrrep; subfdoutsmall->p = 0;
+  prog_restore();                              /* a fresh qmail-remote: ssin, smtpto, inbuf, smtptobuf, every static */
+  int own_obuf = smtpto.n;
+  if (ibuf_n && ibuf_n < ssin.n) ssin.n = ibuf_n;
+  if (obuf_n && obuf_n < smtpto.n) smtpto.n = obuf_n;
+  smtpfd = SMTPFD;                             /* main() would have put the connected socket here */
   in_p = m; in_n = n; in_pos = 0; rplan_k = wplan_k = nwrites = 0;
   hbuf_reset(&outb); hbuf_reset(&repb);
-  flagcritical = 0;
   char st = 'O';
-  h_exit_armed = 1;
+  in_case = 1;
   if (setjmp(h_jb) == 0) { blast(); }
   else {
     if (repb.n > 0 && repb.p[0] == 'D' && memmem(repb.p, repb.n, "partial final line", 18)) st = 'P';
@@ -88,10 +141,10 @@ static void onep(const unsigned char *m, size_t n, const char *tok) {
     else if (repb.n > 0 && repb.p[0] == 'Z' && memmem(repb.p, repb.n, "but connection died", 19)) st = 'D';
     else st = 'T';
   }
-  h_exit_armed = 0;
+  in_case = 0;
   fprintf(h_out, "%s ", tok); h_hex(m, n); fprintf(h_out, " %c ", st); h_hex(outb.p, outb.n);
   fprintf(h_out, " %ld %d ", nwrites, smtpto.p);
-  h_hex((unsigned char *)smtptobuf, smtpto.p > 0 && smtpto.p <= (int)sizeof smtptobuf ? smtpto.p : 0);
+  h_hex((unsigned char *)smtpto.x, smtpto.p > 0 && smtpto.p <= own_obuf ? smtpto.p : 0);
   fputc('\n', h_out);
 }
 static void one(const unsigned char *m, size_t n, int chunk) { char t[24]; snprintf(t, sizeof t, "%d", chunk); onep(m, n, t); }
@@ -104,6 +157,7 @@ static int unhex(const char *h, unsigned char *o) {
 }
 
 int main(int argc, char **argv) {
+  prog_snapshot();
   if (argc > 1 && !strcmp(argv[1], "-")) {   /* explicit cases on stdin: "<chunk> <hex>" */
     static char line[400000]; static unsigned char b[200000];
     h_init_out();
